@@ -285,6 +285,9 @@ func c19Config(run *evid.Run, cfg Cfg, ca, rogue *rig.CA, ci int, noCA bool) {
 	selfSignedExpired := issue(nil, rig.CertOpts{CN: "client1", SelfSigned: true, NotBefore: time.Now().Add(-48 * time.Hour), NotAfter: time.Now().Add(-24 * time.Hour)})
 	selfSignedNotYet := issue(nil, rig.CertOpts{CN: "client1", SelfSigned: true, NotBefore: time.Now().Add(24 * time.Hour), NotAfter: time.Now().Add(48 * time.Hour)})
 	rogueExpired := issue(rogue, rig.CertOpts{CN: "client1", NotBefore: time.Now().Add(-48 * time.Hour), NotAfter: time.Now().Add(-24 * time.Hour)})
+	// Valid certificates of the configured authority whose subject names are NEAR a permitted name: another
+	// letter case, surrounding space, a prefix and an extension of it.  The identity is the subject name itself.
+	nearNames := []string{"Client1", "CLIENT1", "client1 ", "client"}
 	callers := []c19Caller{
 		{Kind: "plaintext"},
 		{Kind: "tls-no-client-cert", TLS: rig.ClientTLS(ca)},
@@ -302,6 +305,9 @@ func c19Config(run *evid.Run, cfg Cfg, ca, rogue *rig.CA, ci int, noCA bool) {
 		{Kind: "self-signed-expired-permitted-name", TLS: rig.ClientTLS(ca, selfSignedExpired)},
 		{Kind: "self-signed-not-yet-valid-permitted-name", TLS: rig.ClientTLS(ca, selfSignedNotYet)},
 		{Kind: "other-authority-expired-permitted-name", TLS: rig.ClientTLS(ca, rogueExpired)},
+	}
+	for _, n := range nearNames {
+		callers = append(callers, c19Caller{Kind: fmt.Sprintf("valid-unpermitted-near-name-%q", n), TLS: rig.ClientTLS(ca, issue(ca, rig.CertOpts{CN: n})), Accepted: true, Identity: n})
 	}
 	signedAccts := map[int]bool{}
 	for k := range callers {
